@@ -320,6 +320,18 @@ def r4_store(ctx, prog):
             r.violation(f['qname'], site, 'the new object is registered with the token on a path where its file was not created valid', file=f['file'], line=bad[0]['line'], path=bad[0]['path'])
         else:
             r.ok(f['qname'], site, '%d abstract states' % len(hits), file=f['file'], line=hits[0]['line'])
+    # a creation that fails (the first store of the new file did not work) must not leave the file behind: it would be indexed as an empty object next time
+    o = Outcomes(f, prog, cenv={'valid': 1, re.compile(r'newObject(->|\.)valid'): 0}, record_calls={'remove', 'insert'}).go()
+    r.paths += len(o.outcomes)
+    fail = [oc for oc in o.outcomes if not any(e[0] == 'call' and e[1] == 'insert' for e in oc['events'])]
+    left = [oc for oc in fail if not any(e[0] == 'call' and e[1] == 'remove' and any('getFilename' in a for a in e[2]) for e in oc['events'])]
+    if not fail:
+        r.undecided(f['qname'], 'failed creation removes its files', 'no failing path found', file=f['file'], line=f['line'])
+    elif left:
+        r.violation(f['qname'], 'failed creation removes its files', 'the object file could not be written and the function gives up without removing the file it created: the call fails, yet the next C_Initialize indexes the empty file as an object',
+                    file=f['file'], line=left[0]['line'], path=left[0]['path'])
+    else:
+        r.ok(f['qname'], 'failed creation removes its files', '%d failing paths' % len(fail), file=f['file'], line=f['line'])
     # destroyObject implementations must not refuse because the object is invalid: clean-up relies on them after a failed write
     for cls in sorted(c for c in prog.subclasses('OSObject') if prog.fns(c + '::destroyObject')):
         g = prog.fn(cls + '::destroyObject')
@@ -359,6 +371,8 @@ def run(ctx):
 
 
 MUTANTS = [
+    dict(name='createobject-failure-leaves-file', rule='C09.R4', file='src/lib/object_store/OSToken.cpp', after='OSObject* OSToken::createObject()',
+         old='\t\ttokenDir->remove(newObject->getFilename());\n\t\ttokenDir->remove(newObject->getLockname());\n', new=''),
     dict(name='generatedes3-no-cleanup', rule='C09.R1', function='generateDES3', file='src/lib/SoftHSM.cpp', after='CK_RV SoftHSM::generateDES3',
          old='\t\t\tif (oskey) oskey->destroyObject();\n', new=''),
     dict(name='copyobject-savetemplate-failure-keeps-object', rule='C09.R1', function='C_CopyObject', file='src/lib/SoftHSM.cpp', after='rv = newp11object->saveTemplate(token, isPrivate != CK_FALSE, pTemplate, ulCount, OBJECT_OP_COPY);',
